@@ -14,7 +14,7 @@ import (
 
 // Run executes the C11 workload.
 func Run(run *vh.Run) {
-	nWorlds := run.N(4, 32)
+	nWorlds := run.N(12, 32)
 	opsPer := run.N(210, 800)
 	par := runtime.NumCPU() / 2
 	if par < 1 {
@@ -23,8 +23,8 @@ func Run(run *vh.Run) {
 	if par > 8 {
 		par = 8
 	}
-	if !run.Thorough() && par > 4 {
-		par = 4
+	if !run.Thorough() && par > 6 {
+		par = 6
 	}
 	sem := make(chan struct{}, par)
 	var wg sync.WaitGroup
@@ -63,16 +63,16 @@ func Run(run *vh.Run) {
 		"slashing-free histories (all validators sign every block); one validator per world may be jailed by unbonding its whole self-delegation through the precompile",
 		"view numbers are compared with Query/Delegation, DelegatorDelegations (sum of balances), DelegationRewards, DelegationTotalRewards (truncated), DelegatorValidators and bank Query/Balance on the same state; where the native query refuses (no such delegation or validator) the precompile may answer 0 or refuse")
 
-	run.Floor("designated precompile calls executed", run.Get("designated_ops_executed"), int64(run.N(250, 9000)))
-	run.Floor("twin comparisons with a state effect", run.Get("twin_comparisons_with_effect"), int64(run.N(90, 3000)))
-	run.Floor("forged signed messages", run.Get("signed_messages_forged"), int64(run.N(15, 600)))
-	run.Floor("valid signed messages accepted", run.Get("signed_messages_valid_accepted"), int64(run.N(4, 150)))
-	run.Floor("view answers compared with native queries", run.Get("views_compared"), int64(run.N(120, 4000)))
-	run.Floor("receipt logs compared", run.Get("logs_compared"), int64(run.N(100, 3500)))
-	run.Floor("native staking transactions interleaved", run.Get("native_staking_txs_interleaved"), int64(run.N(40, 1400)))
+	run.Floor("designated precompile calls executed", run.Get("designated_ops_executed"), int64(run.N(700, 9000)))
+	run.Floor("twin comparisons with a state effect", run.Get("twin_comparisons_with_effect"), int64(run.N(250, 3000)))
+	run.Floor("forged signed messages", run.Get("signed_messages_forged"), int64(run.N(50, 600)))
+	run.Floor("valid signed messages accepted", run.Get("signed_messages_valid_accepted"), int64(run.N(15, 150)))
+	run.Floor("view answers compared with native queries", run.Get("views_compared"), int64(run.N(350, 4000)))
+	run.Floor("receipt logs compared", run.Get("logs_compared"), int64(run.N(280, 3500)))
+	run.Floor("native staking transactions interleaved", run.Get("native_staking_txs_interleaved"), int64(run.N(110, 1400)))
 	run.Floor("caller kinds", int64(run.DistinctN("caller_kinds")), 8)
 	run.Floor("methods", int64(run.DistinctN("methods")), 9)
-	run.Floor("forged classes x caller kinds", int64(run.DistinctN("forged_classes")), int64(run.N(8, 15)))
+	run.Floor("forged classes x caller kinds", int64(run.DistinctN("forged_classes")), int64(run.N(12, 15)))
 	_ = common.Address{}
 }
 
